@@ -325,7 +325,7 @@ func floatGFormat(f px.Format, value float64) string {
 	}
 	if strings.IndexByte(str, sc) >= 0 {
 		// Scientific notation in use.
-		return str
+		return padNumber(f, str)
 	}
 
 	// Go might strip both trailing zeroes and decimal point when using '%g'. The
@@ -350,24 +350,7 @@ func floatGFormat(f px.Format, value float64) string {
 		}
 	}
 
-	b := bytes.NewBufferString(``)
-
-	padByte := byte(' ')
-	if f.IsZeroPad() {
-		padByte = '0'
-	}
-	pad := 0
-	if f.Width() > 0 {
-		pad = f.Width() - (totLen + missing + 1)
-	}
-
-	if !f.IsLeft() {
-		for ; pad > 0; pad-- {
-			b.WriteByte(padByte)
-		}
-	}
-
-	b.WriteString(str)
+	b := bytes.NewBufferString(str)
 	if dotIndex < 0 {
 		b.WriteByte('.')
 		if missing == 0 {
@@ -378,13 +361,28 @@ func floatGFormat(f px.Format, value float64) string {
 		b.WriteByte('0')
 		missing--
 	}
+	return padNumber(f, b.String())
+}
 
-	if f.IsLeft() {
-		for ; pad > 0; pad-- {
-			b.WriteByte(padByte)
-		}
+// padNumber pads the text of a number to the width of the format. The padding is added to the right when
+// the format is left adjusted, as zeroes between the sign and the digits when it is zero padded, and
+// otherwise to the left.
+func padNumber(f px.Format, str string) string {
+	pad := f.Width() - len(str)
+	if pad <= 0 {
+		return str
 	}
-	return b.String()
+	if f.IsLeft() {
+		return str + strings.Repeat(` `, pad)
+	}
+	if f.IsZeroPad() {
+		signLen := 0
+		if strings.IndexByte(`+- `, str[0]) >= 0 {
+			signLen = 1
+		}
+		return str[:signLen] + strings.Repeat(`0`, pad) + str[signLen:]
+	}
+	return strings.Repeat(` `, pad) + str
 }
 
 func (fv floatValue) PType() px.Type {
